@@ -201,6 +201,63 @@ def worker_exec_order(inst, tier):
     return obs
 
 
+def worker_coverage(inst, tier):
+    """instance level, oracle = the raw computation graph (NOT the compiled timings): every vertex a supervisor step inside the horizon depends on
+    (ancestors through message edges and the node's own previous step) is scheduled exactly once, with its own sequence number and times"""
+    import networkx as nx
+    import numpy as onp
+    from vlib import cg, fixtures
+
+    nodes, cgr, g = cg.build(inst, node_cls=fixtures.OracleNode)
+    sup = g.supervisor.name
+    V = {k: {f: onp.atleast_2d(onp.asarray(getattr(v, f))) for f in ("seq", "ts_start", "ts_end")} for k, v in cgr.vertices.items()}
+    Ed = {k: {f: onp.atleast_2d(onp.asarray(getattr(e, f))) for f in ("seq_out", "seq_in")} for k, e in cgr.edges.items()}
+    n_eps = V[sup]["seq"].shape[0]
+    P = int((V[sup]["seq"] >= 0).sum(axis=-1).min())
+    slots = {n: (sl.kind, onp.atleast_2d(onp.asarray(sl.run)), onp.atleast_2d(onp.asarray(sl.seq)), onp.atleast_2d(onp.asarray(sl.ts_start)), onp.atleast_2d(onp.asarray(sl.ts_end)))
+             for n, sl in g.timings.slots.items()}
+    bad, n_needed = [], 0
+    for e in range(n_eps):
+        G = nx.DiGraph()
+        for k, v in V.items():
+            seqs = [int(x) for x in v["seq"][e] if x >= 0]
+            G.add_nodes_from((k, q) for q in seqs)
+            G.add_edges_from(((k, q), (k, q + 1)) for q in seqs if q + 1 in seqs)
+        for (u, w), ed in Ed.items():
+            for so, si in zip(ed["seq_out"][e], ed["seq_in"][e]):
+                if so >= 0 and si >= 0 and (u, int(so)) in G and (w, int(si)) in G:
+                    G.add_edge((u, int(so)), (w, int(si)))
+        needed = set()
+        for p_ in range(P):
+            needed |= nx.ancestors(G, (sup, p_)) | {(sup, p_)}
+        n_needed += len(needed)
+        sched = {}
+        for n, (kind, run_, seq_, t0, t1) in slots.items():
+            for p_ in range(run_.shape[1]):
+                if bool(run_[e, p_]):
+                    key = (kind, int(seq_[e, p_]))
+                    sched.setdefault(key, []).append((n, p_))
+                    if key in G:
+                        q = key[1]
+                        if abs(float(t0[e, p_]) - float(V[kind]["ts_start"][e][q])) > 1e-6 or abs(float(t1[e, p_]) - float(V[kind]["ts_end"][e][q])) > 1e-6:
+                            bad.append(f"episode {e}: slot {n} partition {p_} carries times of another vertex than {key}")
+                    else:
+                        bad.append(f"episode {e}: slot {n} partition {p_} schedules {key}, which is not a vertex of the graph")
+        for key in sorted(needed):
+            if len(sched.get(key, [])) != 1:
+                bad.append(f"episode {e}: vertex {key} (needed by a supervisor step < {P}) is scheduled {len(sched.get(key, []))} times: {sched.get(key, [])}")
+        for key, where in sched.items():
+            if len(where) > 1 and key not in needed:
+                bad.append(f"episode {e}: vertex {key} is scheduled {len(where)} times: {where}")
+    o = Ob("instance: every vertex of the computation graph that a supervisor step inside the horizon depends on is scheduled exactly once, with its own seq and times "
+           "(oracle: ancestors in the raw graph, not the compiled timings)", "unsat" if not bad else "sat", 0, dict(inst=inst),
+           detail=f"{n_needed} needed vertices over {n_eps} episodes, horizon {P}; {bad[:3]}", key="coverage", queries=max(1, n_needed),
+           what=f"compiled schedule does not cover the computation graph: {bad[:2]}")
+    if bad:
+        o.replayed = True  # read off the real Graph's timings
+    return [o]
+
+
 def _replay_exec_order(inst, eps):
     import jax
     from vlib import cg, fixtures
@@ -223,9 +280,9 @@ def _replay_exec_order(inst, eps):
 def configs(tier):
     out = []
     if tier == "quick":
-        shapes = [(1, 3, 2, 3), (2, 4, 2, 4), (2, 4, 3, 4)]
+        shapes = [(1, 3, 2, 3), (2, 4, 2, 4), (2, 4, 3, 4), (1, 2, 4, 2), (2, 3, 5, 3)]  # the last two: a receiver that steps more often than it receives (seq >= #edges)
     else:
-        shapes = [(1, 3, 2, 3), (2, 4, 2, 4), (2, 4, 3, 4), (3, 5, 3, 5), (1, 6, 4, 6), (2, 6, 4, 6)]
+        shapes = [(1, 3, 2, 3), (2, 4, 2, 4), (2, 4, 3, 4), (3, 5, 3, 5), (1, 6, 4, 6), (2, 6, 4, 6), (1, 2, 4, 2), (2, 3, 5, 3), (1, 2, 6, 3), (3, 3, 6, 4)]
     for (W, N1, N2, E) in shapes:
         for tr in (False, True):
             out.append(dict(W=W, N1=N1, N2=N2, E=E, trainable=tr))
@@ -257,6 +314,7 @@ def run(rep):
     oinst += [dict(kind="fanout", mode="mcs", ts_max=0.5, windows=[4, 1]), dict(kind="fanout", mode="generational", ts_max=0.5, windows=[2, 1], third=[5, 10])] + cg.random_instances(rep.tier, quick_n=3)
     rep.configs = list(rep.configs) + oinst
     obs += pmap("props.c07", "worker_exec_order", oinst, rep.tier)
+    obs += pmap("props.c07", "worker_coverage", oinst, rep.tier)
     try:
         from props import c07_attach
         obs += c07_attach.run_all(rep)
